@@ -469,6 +469,8 @@ class TypeMap:
             return self.c(t.args[0])
         if (last == "function" and t.args) or name == "vf_lambda":
             return "struct vf_fn"
+        if last in ("unique_lock", "lock_guard", "scoped_lock"):
+            return "struct vf_lock"  # lock ownership token: mutual exclusion itself is not modelled (sequential units)
         if last == "array" and len(t.args) == 2 and t.args[1].kind == "lit":
             e = self.c(t.args[0])
             n = re.sub(r"[uUlL]+$", "", t.args[1].name)
